@@ -34,7 +34,7 @@ func init() {
 			"(R06.5) the text of a token is cleanupToken(position in line, word) computed at its own position; (R03.7) Copyright literals; (R06.2) Copyright pseudo-matches are kept apart from the overlap filter - fails today (known finding D12). Regex coverage of notice templates and list markers is NOT decided."})
 	register(&Check{ID: "C11", Modules: []string{"v2"}, Run: runC11,
 		Explanation: "Thin structural clauses behind 'Normalize lines up with Match': (R11.1) non-interference: the line counter and every Line stored do not depend on the normalize/updateDict flags; (R11.2) Normalize and match use the same tokenizeStream and Normalize returns memory allocated by the call; (R11.3) the ignorable-line patterns are case-insensitive (Normalize sees un-lowered text); " +
-			"(R11.4) number clean-up cannot leave a trailing dot (idempotence under re-tokenisation); (R11.5) every word Normalize writes out is tested not to be the end-of-line token (sibling consistency: newlines come only from line numbers); (R11.6) Normalize returns the text it wrote without trimming its beginning (leading line breaks stand for input lines); (R11.8) the word interned by the word flush went through HTML unescaping on every path, whatever the flags; (R06.7) the spelling table is consulted with the cleaned word; (R11.7) lower-case word tables consulted by the token clean-up (list markers, spelling variants) are consulted with a case-folded key or only when normalising, because Normalize keeps the capital of a word's first letter; (R06.1) word-table idempotence. Header re-cleaning of numbered markers is NOT decided."})
+			"(R11.4) number clean-up cannot leave a trailing dot (idempotence under re-tokenisation); (R11.5) every word Normalize writes out is tested not to be the end-of-line token (sibling consistency: newlines come only from line numbers); (R11.9) Normalize writes a line break for every line a token lies behind the previous one; (R11.6) Normalize returns the text it wrote without trimming its beginning (leading line breaks stand for input lines); (R11.8) the word interned by the word flush went through HTML unescaping on every path, whatever the flags; (R06.7) the spelling table is consulted with the cleaned word; (R11.7) lower-case word tables consulted by the token clean-up (list markers, spelling variants) are consulted with a case-folded key or only when normalising, because Normalize keeps the capital of a word's first letter; (R06.1) word-table idempotence. Header re-cleaning of numbered markers is NOT decided."})
 	register(&Check{ID: "C17", Modules: []string{""}, Run: runC17,
 		Explanation: "Thin structural clauses behind 'v1 offsets delimit real text': (R17.1) every contribution to a token's Text is the input substring s[i:i+size] at the decoded rune's position, or string(r) only under a guard that excludes the invalid-rune replacement, and Offset is that i - or the Text is one substring s[a:b] with Offset a and b a scan position or len(s); (R17.2) candidate ranges are sorted by target position before they are untangled; " +
 			"(R17.3) the string that is tokenised is the string offsets are later applied to; (R17.5) a path through one iteration of Tokenize's scan loop on which the rune contributes to no token has taken the true branch of unicode.IsSpace(r); (R17.4) a candidate's byte range runs from the Offset of token TargetStart to Offset+len(Text) (bytes) of token TargetEnd-1. Range merging/coalescing bounds are NOT decided."})
@@ -2244,6 +2244,49 @@ func checkNormalizeEOLGuard(c *Ctx, p *core.Prog, nz *ssa.Function) {
 			"dominated by word != eol", "a token's text is written without the end-of-line test that the main loop applies: when that token is an end-of-line token (input starting with a blank or removed line) an extra newline is emitted and every following line of the output is shifted against the line numbers Match reports")
 	}
 	c.R.RequireMin("R11.5", "words written by Normalize", n, 1)
+
+	// R11.9: a line break is written for every line a token lies behind the previous one: the write of the end-of-line
+	// string sits under an ordering test on the token's line (a loop up to it), not under an equality with "previous+1"
+	// (a hyphenated word can put the next token several lines further).
+	nE := 0
+	for _, call := range core.CallsIn(nz) {
+		name := core.StaticCalleeName(call.Common())
+		isEOLWrite := false
+		if strings.HasSuffix(name, ").WriteString") && len(call.Common().Args) == 2 {
+			if u, ok := call.Common().Args[1].(*ssa.UnOp); ok && u.Op == token.MUL && u.X == ssa.Value(eolG) {
+				isEOLWrite = true
+			}
+			if sv, ok := core.ConstString(call.Common().Args[1]); ok && sv == "\n" {
+				isEOLWrite = true
+			}
+		}
+		if (strings.HasSuffix(name, ").WriteByte") || strings.HasSuffix(name, ").WriteRune")) && len(call.Common().Args) == 2 {
+			if k, ok := core.ConstInt(call.Common().Args[1]); ok && k == '\n' {
+				isEOLWrite = true
+			}
+		}
+		if !isEOLWrite {
+			continue
+		}
+		nE++
+		isLine := func(v ssa.Value) bool { return strings.HasSuffix(core.AP(v), ".Line") }
+		ordered, equal := false, false
+		for _, f := range core.FactsAtInstr(call) {
+			cmp, ok := f.AsCmp()
+			if !ok || !(isLine(cmp.X) || isLine(cmp.Y)) {
+				continue
+			}
+			switch cmp.Op {
+			case token.LSS, token.GTR, token.LEQ, token.GEQ, token.NEQ:
+				ordered = true
+			case token.EQL:
+				equal = true
+			}
+		}
+		c.R.Check(ordered && !equal, "R11.9", "Normalize: a line break is written for every line the token lies behind the previous one", p.Pos(call.Pos()),
+			"the end-of-line write is repeated while the written line is behind the token's line", "the end-of-line write is guarded by an equality on the token's line (exactly one line further): after a word hyphenated over two line breaks the next token lies two lines further, no line break (and no blank) is written and the words are glued together")
+	}
+	c.R.RequireMin("R11.9", "end-of-line writes of Normalize", nE, 1)
 }
 
 // checkRunDetectorQ: shared by C01 and C10 (rule id R01.2).
